@@ -130,6 +130,9 @@ End SameGlobals.
 
 (* ====================================================================== *)
 (* The relation between a function and its renumbered version              *)
+Lemma compact_refs_incl e x : In x (compact_expr_refs e) -> In x (expr_refs e).
+Proof. destruct e; cbn; auto. destruct (compact_knows_expr tag); cbn; tauto. Qed.
+
 Section Rel.
 Variable u : nat -> bool.      (* live expressions of the source function *)
 Variable n : nat.              (* size of the source arena *)
@@ -181,9 +184,6 @@ Record fspec (f f' : func) : Prop := mkfspec {
 Definition R (fr fr' : frame) : Prop :=
   fr_args fr' = fr_args fr /\ fr_locals fr' = fr_locals fr /\
   forall h, ok h -> nth_error (fr_cache fr') (r h) = nth_error (fr_cache fr) h.
-
-Lemma compact_refs_incl e x : In x (compact_expr_refs e) -> In x (expr_refs e).
-Proof. destruct e; cbn; auto. destruct (compact_knows_expr tag); cbn; tauto. Qed.
 
 Lemma find_case_crel cs cs' sel i : crel cs cs' -> find_case cs' sel i = find_case cs sel i.
 Proof. intro H. revert i. induction H; intro i; cbn [find_case]; [reflexivity|]. rewrite IHcrel. reflexivity. Qed.
